@@ -385,6 +385,12 @@ def check_edges(p: Project, r: Result):
     guards = [n.test for n in walk_no_nested(init.node) if isinstance(n, ast.If) and n.body and isinstance(n.body[-1], ast.Raise) and 'capacity' in ast.unparse(n.test)]
     guards.sort(key=lambda t: (t.lineno, t.col_offset))
     ok = bool(guards) and guards_reject(guards, ('capacity', 'self.capacity'), bad=(0, -3, 2.5, None, '4'), good=(1, 7))
+    # ... and nothing before the guards rewrites the value they look at (seed C01-h floors a float capacity into self.capacity first, the subclasses
+    # then build their stores from the raw argument): the constructor as a whole, run abstractly for each representative value, rejects / accepts it
+    from .common import abstract_rejects
+    if ok:
+        ok = all(abstract_rejects(p, base, init, {'capacity': v}, must=True) for v in (0, -3, 2.5, None, '4')) and \
+            not any(abstract_rejects(p, base, init, {'capacity': v}, must=False) for v in (1, 7))
     key = f'{init.key}::capacity-validation'
     if ok:
         r.ok('C01.O6', key, 'raises unless isinstance(capacity, int) and capacity > 0', src(init.module), init.node.lineno)
